@@ -28,7 +28,63 @@ KINDS = ['fs', 'fs', 'mapping', 'demo', 'demo-map-base', 'demo-fs-base', 'demo-f
 HIGH = [1, 2, 3, 5, 255, 256, 257, 65535, 65536, 2 ** 32, 2 ** 62 - 1]
 
 
+def thread_strategy():
+    from vlib import threadprog
+    return st.fixed_dictionaries({
+        'mode': st.just('threads'),
+        'kind': st.sampled_from(['fs', 'mapping', 'demo']),
+        'programs': st.lists(st.tuples(st.just('allocator'), threadprog.program_strategy('allocator')).map(list),
+                             min_size=2, max_size=4),
+        'schedule': threadprog.SCHEDULE,
+        'lines': st.just(True),
+    })
+
+
+def execute_threads(case):
+    import sys
+    import ZODB.BaseStorage
+    import ZODB.DemoStorage
+    import ZODB.MappingStorage
+    from ZODB.POSException import ConflictError
+    from vlib import threadprog
+    out = Outcome()
+    clock.install()
+    clock.reset()
+    d = newdir()
+    tr = threadprog.ThreadRun(case['kind'], d)
+    try:
+        threads = [('a%d' % i, tr.body('a%d' % i, prog, role)) for i, (role, prog) in enumerate(case['programs'])]
+        funcs = [ZODB.BaseStorage.BaseStorage.new_oid, ZODB.MappingStorage.MappingStorage.__dict__['new_oid'],
+                 ZODB.DemoStorage.DemoStorage.new_oid, ZODB.BaseStorage.BaseStorage.set_max_oid]
+        s = tr.run(threads, case['schedule'], funcs)
+        out.evals = len(tr.issued)
+        out.label('threads', 'threads-' + case['kind'])
+        if not threadprog.thread_problems(s, out, PROPERTY, allowed=(ConflictError,)):
+            seen = {}
+            for th, oid in tr.issued:
+                if oid in seen:
+                    out.fail((PROPERTY, 'threads-new_oid', 'issued-twice'),
+                             'threads %s and %s were both handed oid %d' % (seen[oid], th, u64(oid)))
+                    break
+                seen[oid] = th
+            else:
+                existing = set(tr.oids.values())
+                dup = [o for _, o in tr.issued if o in existing]
+                if dup:
+                    out.fail((PROPERTY, 'threads-new_oid', 'existing-object'), 'issued id %d of an existing object' % u64(dup[0]))
+        out.nt_keys = [(repr(sorted(case.items())), i) for i in range(len(tr.issued))] if s.switches else []
+        if s.switches:
+            out.label('threads-with-preemption')
+    finally:
+        tr.close()
+    return out
+
+
 def strategy(tier):
+    return st.one_of(_seq_strategy(tier), _seq_strategy(tier), _seq_strategy(tier), thread_strategy())
+
+
+def _seq_strategy(tier):
     n = 14 if tier == 'quick' else 30
     op = st.one_of(
         st.tuples(st.just('alloc'), st.integers(1, 4)),
@@ -92,6 +148,8 @@ def commit_records(storage, recs, restore=False, tid=None):
 
 
 def execute(case):
+    if case.get('mode') == 'threads':
+        return execute_threads(case)
     import ZODB.DemoStorage
     from ZODB.DemoStorage import DemoStorage
     from ZODB.FileStorage import FileStorage
@@ -99,7 +157,8 @@ def execute(case):
     out = Outcome()
     out.evals = 0
     clock.install()
-    locks.install()
+    from vlib import sched
+    sched.install()
     clock.reset()
     d = newdir()
     kind = case['kind']
